@@ -60,7 +60,7 @@ class Gen:
 
     def __init__(self, rnd: random.Random, *, ncomps=(1, 4), depth=3, width=3, provide=False,
                  elems=False, collide=True, required=0.04, loops=True, withs=True, dyn_fill=True,
-                 isf=True, aliases=True, hooks=0.0):
+                 isf=True, aliases=True, hooks=0.0, alias_collide=False):
         self.r = rnd
         self.ncomps = ncomps
         self.depth = depth
@@ -75,6 +75,7 @@ class Gen:
         self.isf = isf
         self.aliases = aliases
         self.hooks = hooks
+        self.alias_collide = alias_collide
         self.tid = 0
         self.eid = 0
 
@@ -134,7 +135,10 @@ class Gen:
         page = self.nodes(lex=0, depth=self.depth, in_fill=None, top=True)
         if not any(self._has_comp(nd) for nd in page):
             page.append(self.comp(lex=0, depth=self.depth, in_fill=None))
-        return {"id": pid, "mode": mode, "devs": [], "dyn": False, "pyctx": False, "ctx": ctx, "comps": comps, "page": page}
+        out = {"id": pid, "mode": mode, "devs": [], "dyn": False, "pyctx": False, "ctx": ctx, "comps": comps, "page": page}
+        if self.alias_collide:
+            out["scf"] = True
+        return out
 
     def _has_comp(self, nd) -> bool:
         if nd["t"] == "comp":
@@ -271,6 +275,10 @@ class Gen:
         r = self.r
         dv = "sd" if self.aliases and r.random() < 0.3 else ""
         fv = "df" if self.aliases and r.random() < 0.3 else ""
+        if self.alias_collide:
+            # alias names that are also names of page / data / loop / with variables: the aliases win inside the fill
+            dv = r.choice(["sd", "x", "x", "z"]) if r.random() < 0.5 else ""
+            fv = r.choice(["df", "y", "y"]) if r.random() < 0.5 else ""
         inner = {"dv": dv, "fv": fv}
         return {"t": "fill", "ne": ne, "dv": dv, "fv": fv, "a": self.nodes(lex, depth, inner) if r.random() < 0.9 else []}
 
@@ -285,6 +293,7 @@ def _kw_src(kw) -> str:
 
 
 _snap_id = [0]
+_SCF = [""]          # "|vf_sc" while the templates of a program with colliding alias names (prog["scf"]) are written
 
 
 def tpl_src(nodes: List[Dict[str, Any]], tag: str, dyn: bool = False, probes: bool = False) -> str:
@@ -299,13 +308,15 @@ def tpl_src(nodes: List[Dict[str, Any]], tag: str, dyn: bool = False, probes: bo
         if t == "text":
             out.append(f"[{n['id']}]")
         elif t == "var":
-            out.append("[%s={{ %s }}]" % (n["x"], n["x"]))
+            out.append("[%s={{ %s%s }}]" % (n["x"], n["x"], _SCF[0]))
         elif t == "fld":
-            out.append("[%s.%s={{ %s.%s }}]" % (n["x"], n["f"], n["x"], n["f"]))
+            out.append("[%s.%s={{ %s.%s%s }}]" % (n["x"], n["f"], n["x"], n["f"], _SCF[0]))
         elif t == "isf":
             out.append("[?%s={{ component_vars.is_filled.%s }}]" % (n["s"], n["s"]))
         elif t == "defref":
-            out.append("{{ %s }}" % n["x"])
+            # (with colliding alias names the name may be bound to an ordinary value where the alias is shadowed:
+            #  the specification's defref prints the default content of a slot reference and nothing otherwise)
+            out.append("{{ %s%s }}" % (n["x"], "|vf_ref" if _SCF[0] else ""))
         elif t == "if":
             out.append("{%% if %s %%}%s{%% else %%}%s{%% endif %%}" % (n["x"], tpl(n["a"]), tpl(n["b"])))
         elif t == "for":
@@ -388,6 +399,17 @@ def _vf_tags():
             if before != now:
                 SNAP_DIFFS.append(f"snap {n}: before={before} after={now}")
         return ""
+
+    @lib.filter
+    def vf_ref(v):
+        from django_components.slots import SlotRef
+        return v if isinstance(v, SlotRef) else ""
+
+    @lib.filter
+    def vf_sc(v):
+        # prints scalars only (the specification's Show): dicts (slot data), SlotRef (default alias), lists,
+        # objects print nothing - used when alias names collide with ordinary variable names
+        return v if isinstance(v, (str, int)) and not isinstance(v, bool) else ""
     return lib
 
 
@@ -411,6 +433,7 @@ def make_component(prog, idx: int, tag: str, log: Optional[list] = None, extra: 
     from django_components import Component
     spec = prog["comps"][idx - 1]
     data = spec["data"]
+    _SCF[0] = "|vf_sc" if prog.get("scf") else ""
     src = "" if (extra and "template" in extra) else tpl_src(spec["tpl"], tag, dyn, probes)
 
     def get_context_data(self, **kwargs):
@@ -505,6 +528,7 @@ def page_context(prog) -> Dict[str, Any]:
 
 
 def page_src(prog, dyn: bool = False, probes: bool = False) -> str:
+    _SCF[0] = "|vf_sc" if prog.get("scf") else ""
     return "{% load lib_" + prog["mode"] + " vf_tags %}" + tpl_src(prog["page"], "c_" + prog["mode"], dyn, probes)
 
 
